@@ -142,6 +142,13 @@ def gen_cases(spec):
             out.append(({"main": "x := y + 1", "__standards__": p}, "main"))
             out.append(({"main": "// only a comment", "__standards__": p}, "main"))   # all program text comes from a user file of that name
             out.append(({"main": "", "__standards__": p + " ;\nx := RUN nosuch WITH END"}, "main"))
+        if spec["chunk"] == 0:
+            # errors on lines whose number needs more than 15, 16, 23, 24 bits
+            for t in layouts.FAR_THRESHOLDS:
+                pad, _ = layouts.far_pad(r, t)
+                bad = r.choice(["x := ", "x := RUN nosuch WITH 1 END", "GOTO nowhere", "DEFINE a AS $3 END DEFINE a", 'include "absent"', "include"])
+                out.append(({"main": "y := 1 ;\n" + pad + bad}, "main"))
+                out.append(({"main": 'y := 1 ;\ninclude "far"', "far": pad + bad}, "main"))
     elif k == "noise":
         files, main = base_source(r, spec["chunk"])
         for _ in range(spec["n"]):
@@ -241,13 +248,29 @@ def work_valgrind(spec, ins, part):
     binary = common.drv("plain")
     d = os.path.join(runner.RUNDIR, "vg%d_%d" % (os.getpid(), spec["chunk"]))
     os.makedirs(d, exist_ok=True)
-    cases = [{"mode": "compile", "main": m, "files": f, "opts": [("program", 0), ("abandon", 60)]} for f, m in ins]
+    cases = [{"mode": "compile", "main": m, "files": f, "opts": [("program", 0), ("abandon", spec.get("vg_abandon", 60))]} for f, m in ins]
     cf = os.path.join(d, "cases")
     runner.write_cases(cf, cases)
     log = os.path.join(d, "vg.log")
-    p = subprocess.run(["valgrind", "--tool=memcheck", "--error-exitcode=77", "--track-origins=no", "--leak-check=no", "--log-file=" + log,
-                        binary, cf], stdout=subprocess.PIPE, stderr=subprocess.PIPE)
-    txt = open(log).read() if os.path.exists(log) else ""
+    # the driver leaves with exit 98 after a case whose macro expansion is still rewriting after the abandon threshold (reached
+    # much sooner under valgrind's slow-down); it is restarted behind that case, like runner.run_cases does
+    skip = 0
+    results = [None] * len(cases)
+    txt = ""
+    while True:
+        of = os.path.join(d, "out%d" % skip)
+        with open(of, "wb") as o:
+            p = subprocess.run(["valgrind", "--tool=memcheck", "--error-exitcode=77", "--track-origins=no", "--leak-check=no", "--log-file=" + log,
+                                binary, cf, str(skip)], stdout=o, stderr=subprocess.PIPE)
+        txt += open(log).read() if os.path.exists(log) else ""
+        finished, cur, _t = runner._parse_out(of, skip, results)
+        if finished or not isinstance(cur, tuple):
+            break
+        part["stats"]["valgrind-cases-abandoned-while-rewriting"] += 1
+        skip = cur[1] + 1
+        if skip >= len(cases):
+            p = subprocess.CompletedProcess([], 0, b"", b"")
+            break
     part["evals"] += len(cases)
     if p.returncode == 77 or "Invalid read" in txt or "Invalid write" in txt or "uninitialised" in txt:
         part["violations"].append({"signature": "memcheck:" + ("uninitialised" if "uninitialised" in txt else "invalid-access"),
@@ -256,7 +279,7 @@ def work_valgrind(spec, ins, part):
     elif p.returncode != 0:
         part["inconclusive"].append("valgrind run failed with exit %d: %s" % (p.returncode, p.stderr.decode("latin-1")[-500:]))
     else:
-        part["stats"]["valgrind-cases-clean"] += len(cases)
+        part["stats"]["valgrind-cases-clean"] += sum(1 for x in results if x is not None and not x.get("abandoned"))
         for f, m in ins:
             part["nontrivial"].append(harness.chash([f, m]))
     import shutil
